@@ -483,6 +483,21 @@ class Ctx:
             a[i] = e
         return a.reshape(shape).view(SymArray)
 
+    def int_array(self, name, n, lo=None, hi=None):
+        """1-D integer array: np.int64 in concrete mode; in symbolic mode an object array of Int
+        symbols tagged as standing for an integer-dtype array (stores into it truncate)."""
+        import numpy as np
+        from .arr import SymArray
+        els = [self.int("%s%d" % (name, i), lo, hi) for i in range(n)]
+        if self.mode == "concrete":
+            return np.array(els, dtype=np.int64)
+        a = np.empty(n, dtype=object)
+        for i, e in enumerate(els):
+            a[i] = e
+        a = a.view(SymArray)
+        a.symdt = "i"
+        return a
+
     def le(self, a, b, rel=1e-9, abs_=1e-12):
         """a <= b (with float slack in concrete mode)."""
         if self.mode == "concrete":
